@@ -305,12 +305,12 @@ def run(ctx):
     for i in range(n):
         prog = gen_program(ctx)
         linker = check_program(ctx, prog, stats)
-        if linker is not None and len(cases) < (60 if ctx.quick() else 250):
+        if linker is not None and len(cases) < (24 if ctx.quick() else 250):
             try:
                 term, exp, kinds = model_case(linker)
             except KeyError:
                 continue
-            if sum(len(d) for (_, _, d) in linker.pre['sections']) <= 9000:
+            if sum(len(d) for (_, _, d) in linker.pre['sections']) <= (3500 if ctx.quick() else 9000):
                 cases.append((term, exp))
                 meta.append(i)
     ctx.cov['stages']['relax_search'] = stats
